@@ -113,7 +113,12 @@ fn lines_case(id: &str, text: &str, reqs: &[i64]) {
 fn adjust_case(id: &str, orig: &[Tok], adj: &[Tok]) {
     let mut o = build_map(4, 4, orig); let a = build_map(4, 4, adj);
     let os: Vec<Tok> = o.tokens().map(|t| raw_of(&t)).collect(); let as_: Vec<Tok> = a.tokens().map(|t| raw_of(&t)).collect();
-    let out = match catch_unwind(AssertUnwindSafe(|| { o.adjust_mappings(&a); o.tokens().map(|t| raw_of(&t)).collect::<Vec<_>>() })) { Ok(v) => format!("ok {}", toks_str(&v)), Err(_) => "panic".into() };
+    // C04 over histories: lookups before the adjustment (they may populate caches), then the adjustment, then lookups on the same map
+    let qs: Vec<(u32, u32)> = vec![(0, 0), (0, 3), (0, 7), (1, 2), (2, 9), (0, 12)];
+    let out = match catch_unwind(AssertUnwindSafe(|| { for q in &qs { let _ = o.lookup_token(q.0, q.1); }
+            o.adjust_mappings(&a);
+            let after: Vec<String> = qs.iter().map(|q| o.lookup_token(q.0, q.1).map(|t| tok_str(&raw_of(&t))).unwrap_or("none".into())).collect();
+            (o.tokens().map(|t| raw_of(&t)).collect::<Vec<_>>(), after) })) { Ok((v, after)) => format!("ok {}\t{}", toks_str(&v), after.join(",")), Err(_) => "panic\t-".into() };
     println!("{}\tadjust\t{}\t{}\t{}", id, toks_str(&os), toks_str(&as_), out);
 }
 
@@ -155,9 +160,13 @@ fn run_codec(r: &mut Rng, n: u64, ranges: bool) {
 }
 fn run_lookup(r: &mut Rng, n: u64) {
     for i in 0..n {
-        let mut toks = gen_toks(r, 4, 4, 10, true); toks.sort_by_key(|t| (t.dl, t.dc));
+        let mut toks = gen_toks(r, 4, 4, 10, true);
+        // sometimes the map reaches the last representable line
+        if i % 9 == 4 { for t in toks.iter_mut() { if r.below(3) == 0 { t.dl = u32::MAX - r.below(2) as u32; } } }
+        toks.sort_by_key(|t| (t.dl, t.dc));
+        if i % 9 == 4 { for (l, c) in [(u32::MAX, 0), (u32::MAX, 3), (u32::MAX - 1, 7), (u32::MAX, u32::MAX - 1)] { lookup_case(&format!("r{}_m{}", i, c), &toks, l, c); } }
         for q in 0..6 { let (l, c) = match q { 0 => (0, 0), 1 => (u32::MAX, u32::MAX), _ => (r.below(10) as u32, r.below(8) as u32) }; lookup_case(&format!("r{}_{}", i, q), &toks, l, c); }
-        if let Some(t) = toks.get(r.below(toks.len().max(1) as u64) as usize) { lookup_case(&format!("r{}_e", i), &toks, t.dl, t.dc); lookup_case(&format!("r{}_n", i), &toks, t.dl + 1, t.dc.saturating_sub(1)); }
+        if let Some(t) = toks.get(r.below(toks.len().max(1) as u64) as usize) { lookup_case(&format!("r{}_e", i), &toks, t.dl, t.dc); lookup_case(&format!("r{}_n", i), &toks, t.dl.saturating_add(1), t.dc.saturating_sub(1)); }
     }
 }
 fn run_rel(r: &mut Rng, n: u64) {
@@ -494,7 +503,7 @@ fn run_decode(r: &mut Rng, n: u64, with_faults: bool) {
                     if hit && fault == 6 { own_vlq(0, &mut seg); if arity == 5 { own_vlq(0, &mut seg); } fault_done = true; }   // 5 -> 7 or 4 -> 5 fields (the latter may be valid)
                 }
                 if hit && fault == 7 { own_vlq(1, &mut seg); fault_done = true; }                       // 1 -> 2, 4 -> 5 (maybe valid), 5 -> 6
-                if hit && fault == 8 { let at = r.below(seg.len() as u64 + 1) as usize; seg.insert(at, ['!', ' ', '=', '-', '_', '\u{e9}', '\u{7f}', '\u{0}', '"', '\\'][r.below(10) as usize]); fault_done = true; }   // a foreign byte anywhere in the segment
+                if hit && fault == 8 { let at = r.below(seg.len() as u64 + 1) as usize; seg.insert(at, ['!', ' ', '=', '-', '_', '\u{e9}', '\u{7f}', '\u{0}', '"', '\\', '\u{141}', '\u{143}', '\u{4e2b}', '\u{1f441}', '\u{ff21}', '\u{80}', '\u{c1}'][r.below(17) as usize]); fault_done = true; }   // a foreign byte anywhere in the segment
                 if hit && fault == 9 { seg.push('g'); fault_done = true; }                              // continuation digit at the end
                 if hit && fault == 10 { seg.push_str(["gggggggggggggB", "gggggggggggggA", "2ggggggggggggA", "ggggggggggggggggA", "hggggggggggggggB"][r.below(5) as usize]); fault_done = true; }   // 14+ digits, also with zero payloads only
                 if hit && fault == 11 { seg.push_str("////////////f"); fault_done = true; }            // 13 digits whose top bits are lost
@@ -553,6 +562,26 @@ fn run_decode(r: &mut Rng, n: u64, with_faults: bool) {
     }
 }
 
+// ---- C02: kind dispatch on the keys `sections` / `x_facebook_sources` ----
+fn run_dispatch(r: &mut Rng, n: u64) {
+    let inner = r#"{"version":3,"sources":["a"],"names":[],"mappings":"AAAA"}"#;
+    for i in 0..n {
+        let sections = ["-", "null", "[]", "[S]", "[S,S2]", "[N]"][r.below(6) as usize];
+        let fb = ["-", "-", "null", "[]", "[null]", "[[{\"names\":[\"f\"],\"mappings\":\"AAA\"}]]"][r.below(6) as usize];
+        let with_mappings = r.below(4) != 0;
+        let mut parts = vec!["\"version\":3".to_string()];
+        if with_mappings { parts.push("\"sources\":[\"a\"]".into()); parts.push("\"names\":[]".into()); parts.push("\"mappings\":\"AAAA\"".into()); }
+        if sections != "-" { parts.push(format!("\"sections\":{}", sections.replace("S2", &format!("{{\"offset\":{{\"line\":5,\"column\":0}},\"map\":{}}}", inner)).replace("S", &format!("{{\"offset\":{{\"line\":0,\"column\":0}},\"map\":{}}}", inner)).replace("N", "{\"offset\":{\"line\":0,\"column\":0},\"map\":{\"version\":3,\"sections\":[]}}"))); }
+        if fb != "-" { parts.push(format!("\"x_facebook_sources\":{}", fb)); }
+        // key order is irrelevant
+        for k in (1..parts.len()).rev() { let j = r.below(k as u64 + 1) as usize; parts.swap(k, j); }
+        let doc = format!("{{{}}}", parts.join(","));
+        let kind = |d: &sourcemap::DecodedMap| -> String { match d { sourcemap::DecodedMap::Regular(_) => "regular".into(), sourcemap::DecodedMap::Hermes(_) => "hermes".into(),
+            sourcemap::DecodedMap::Index(ix) => format!("index{}{}", ix.get_section_count(), ix.sections().map(|s| match s.get_sourcemap() { Some(sourcemap::DecodedMap::Index(_)) => ":index", Some(sourcemap::DecodedMap::Regular(_)) => ":regular", Some(sourcemap::DecodedMap::Hermes(_)) => ":hermes", None => ":none" }).collect::<String>()) } };
+        let out = match catch_unwind(AssertUnwindSafe(|| sourcemap::decode_slice(doc.as_bytes()))) { Ok(Ok(d)) => kind(&d), Ok(Err(e)) => format!("err {}", err_name(&e)), Err(_) => "panic".into() };
+        println!("d{}\tdispatch\t{}\t{}\t{}\t{}\t{}", i, sections, fb.len().min(9), with_mappings as u8, hex(doc.as_bytes()), out);
+    }
+}
 // ---- C14: Hermes / Metro function maps ----
 fn run_hermes(r: &mut Rng, n: u64) {
     for i in 0..n {
@@ -770,6 +799,23 @@ fn key_shape(v: &serde_json::Value, text_order: &str) -> String {
     let secs = o.get("sections").and_then(|s| s.as_array()).map(|a| a.iter().map(|sec| format!("<{}:{}:{}>", sec["offset"]["line"], sec["offset"]["column"], sec.get("map").map(|m| key_shape(m, text_order)).unwrap_or("nomap".into()))).collect::<Vec<_>>().join("")).unwrap_or_default();
     format!("{{v={} {}{}}}", ver, keys.join(","), secs)
 }
+/// C03: the written keys CARRY the map's values. For every regular / Hermes map of the tree (pre-order) one entry
+/// "written~api" where both sides are root|sources|names|contents|file|ignore|debug_id; a JSON null is shown as "null".
+fn written_values(v: &serde_json::Value, dm: &sourcemap::DecodedMap, out: &mut Vec<String>) {
+    let js = |x: Option<&serde_json::Value>| -> String { match x { None => "-".into(), Some(serde_json::Value::Null) => "null".into(), Some(serde_json::Value::String(s)) => format!("={}", hex(s.as_bytes())), Some(o) => format!("?{}", o) } };
+    let arr = |x: Option<&serde_json::Value>| -> String { match x { None => "-".into(), Some(serde_json::Value::Array(a)) => format!("[{}]", a.iter().map(|e| match e { serde_json::Value::Number(n) => n.to_string(), o => js(Some(o)) }).collect::<Vec<_>>().join(",")), Some(o) => js(Some(o)) } };
+    let of_sm = |sm: &sourcemap::SourceMap| -> String { let n = sm.get_source_count();
+        let contents = if (0..n).any(|i| sm.get_source_contents(i).is_some()) { format!("[{}]", (0..n).map(|i| sm.get_source_contents(i).map(|c| format!("={}", hex(c.as_bytes()))).unwrap_or("null".into())).collect::<Vec<_>>().join(",")) } else { "-".into() };
+        let ign: Vec<String> = sm.ignore_list().map(|x| x.to_string()).collect();
+        format!("{}|[{}]|[{}]|{}|{}|{}|{}", opt_hex(sm.get_source_root()), (0..n).map(|i| opt_hex(sm.get_source(i))).collect::<Vec<_>>().join(","), sm.names().map(|x| format!("={}", hex(x.as_bytes()))).collect::<Vec<_>>().join(","),
+            contents, opt_hex(sm.get_file()), if ign.is_empty() { "-".into() } else { format!("[{}]", ign.join(",")) }, sm.get_debug_id().map(|d| format!("={}", hex(d.to_string().as_bytes()))).unwrap_or("-".into())) };
+    let of_json = |o: &serde_json::Value| -> String { format!("{}|{}|{}|{}|{}|{}|{}", js(o.get("sourceRoot")), arr(o.get("sources")), arr(o.get("names")), arr(o.get("sourcesContent")), js(o.get("file")), arr(o.get("ignoreList")), js(o.get("debug_id"))) };
+    match dm {
+        sourcemap::DecodedMap::Regular(sm) => out.push(format!("{}~{}", of_json(v), of_sm(sm))),
+        sourcemap::DecodedMap::Hermes(h) => out.push(format!("{}~{}", of_json(v), of_sm(h))),
+        sourcemap::DecodedMap::Index(ix) => { if let Some(secs) = v.get("sections").and_then(|s| s.as_array()) { for (sv, sec) in secs.iter().zip(ix.sections()) { if let (Some(mv), Some(m)) = (sv.get("map"), sec.get_sourcemap()) { written_values(mv, m, out); } } } }
+    }
+}
 fn gen_hermes_doc(r: &mut Rng) -> Vec<u8> {
     // a regular map written by the crate + well-formed function maps rendered by the harness
     let sm = gen_map(r, false); let nsrc = sm.get_source_count() as usize;
@@ -787,7 +833,7 @@ fn gen_hermes_doc(r: &mut Rng) -> Vec<u8> {
     serde_json::to_vec(&doc).unwrap()
 }
 fn gen_index(r: &mut Rng, depth: u32) -> sourcemap::SourceMapIndex {
-    let nsec = 1 + r.below(3); let mut off = (r.below(3) as u32, r.below(5) as u32); let mut secs = vec![];
+    let nsec = if r.below(6) == 0 { 0 } else { 1 + r.below(3) }; let mut off = (r.below(3) as u32, r.below(5) as u32); let mut secs = vec![];
     for _ in 0..nsec {
         let inner = match r.below(if depth > 0 { 6 } else { 4 }) {
             0 => sourcemap::decode_slice(&gen_hermes_doc(r)).ok(),
@@ -814,6 +860,7 @@ fn run_roundtrip(r: &mut Rng, n: u64) {
             let mut out1 = vec![]; dm.to_writer(&mut out1).unwrap();
             let detected = sourcemap::is_sourcemap_slice(&out1);
             let v: serde_json::Value = serde_json::from_slice(&out1).unwrap(); let shape = key_shape(&v, "");
+            let mut vals = vec![]; written_values(&v, &dm, &mut vals); let shape = format!("{}\t{}", shape, vals.join("#"));
             let (after, idem) = match sourcemap::decode_slice(&out1) {
                 Ok(dm2) => { let mut out2 = vec![]; dm2.to_writer(&mut out2).unwrap();
                     let idem = match sourcemap::decode_slice(&out2) { Ok(dm3) => { let mut out3 = vec![]; dm3.to_writer(&mut out3).unwrap(); if out2 == out3 { "1".to_string() } else { "0".to_string() } } Err(e) => format!("err {}", err_name(&e)) };
@@ -826,7 +873,7 @@ fn run_roundtrip(r: &mut Rng, n: u64) {
         match res {
             Ok(Some((before, after, idem, detected, shape, model_io))) => println!("t{}\troundtrip\t{}\t{}\t{}\t{}\t{}\t{}\t{}", i, kind, before, after, idem, detected as u8, shape, model_io),
             Ok(None) => {}
-            Err(_) => println!("t{}\troundtrip\t{}\tpanic\tpanic\t-\t0\t-\t-\t0\t-", i, kind),
+            Err(_) => println!("t{}\troundtrip\t{}\tpanic\tpanic\t-\t0\t-\t-\t-\t0\t-", i, kind),
         }
     }
 }
@@ -900,6 +947,7 @@ fn main() {
         "crash" => run_crash(&mut r, n),
         "hermes" => run_hermes(&mut r, n),
         "decode" => run_decode(&mut r, n, false),
+        "dispatch" => run_dispatch(&mut r, n),
         "decode_faults" => run_decode(&mut r, n, true),
         "fname" => run_fname(&mut r, n),
         "fname_any" => run_fname_gen(&mut r, n, true),
